@@ -167,8 +167,9 @@ class Builder():
 
         if isinstance(source, str) and not raw_yaml:
             try:
-                with open(os.path.expanduser(source), 'r') as f:
-                    self._current_file = source
+                expanded_source = os.path.expanduser(source)
+                with open(expanded_source, 'r') as f:
+                    self._current_file = expanded_source
                     source = f.read()
             except (FileNotFoundError, OSError) as e:
                 #OSError(22) is "Invalid argument"
